@@ -905,6 +905,88 @@ def posLit (v : Val) : Val :=
     ⟨.flt, v.shape, v.data.map (fun c => (castCell .flt c).getD (.flt 0))⟩
   else v
 
+/-- how a flag documented as `bool` is spelled: a Python `bool`, or something else with a truth value
+    (`1`, `0`, `numpy.True_`, `1.0` …): `isinstance(scale, bool)`, `scale is True` and `if scale:` tell them apart. -/
+inductive Flag where
+  | bool (b : Bool)
+  | other (truthy : Bool)
+deriving Repr, DecidableEq
+
+def Flag.isBool : Flag → Bool
+  | .bool _ => true
+  | .other _ => false
+
+def Flag.truthy : Flag → Bool
+  | .bool b => b
+  | .other t => t
+
+/-! ## tables: `Atoms.df()` / `System.atoms_df(scale)` -/
+
+/-- `tools.indexstr(shape)`: every index of an array of that shape in C order with its `[i][j]…` string. -/
+def indexStrs : List Nat → List (List Nat × String)
+  | [] => [([], "")]
+  | d :: ds => (List.range d).flatMap (fun i =>
+      (indexStrs ds).map (fun p => (i :: p.1, "[" ++ toString i ++ "]" ++ p.2)))
+
+/-- flat position (C order) of a multi-index inside one per-atom entry of trailing shape `trail`. -/
+def flatIdx : List Nat → List Nat → Nat
+  | _ :: ds, i :: is => i * prod ds + flatIdx ds is
+  | _, _ => 0
+
+/-- one column of the table: name, dtype class, one cell per atom. -/
+structure Column where
+  name : String
+  dt : DType
+  cells : List Cell
+deriving Repr, BEq, DecidableEq
+
+/-- the columns one property contributes: `value[(Ellipsis,) + index]` under the name `key + istr` for every index of the
+    trailing shape (`value` itself for a scalar property). -/
+def valColumns (key : String) (v : Val) : List Column :=
+  let trail := v.shape.tail
+  let rows := rowsOf (v.shape.headD 0) (prod trail) v.data
+  (indexStrs trail).map (fun p => ⟨key ++ p.2, v.dt, rows.map (fun r => r.getD (flatIdx trail p.1) default)⟩)
+
+/-- `Atoms.df()`: the columns of every property, in key order. -/
+def dfColumns (s : State) (o : Nat) : List Column :=
+  (s.obj o).props.flatMap (fun p => valColumns p.key (arrVal s p.arr))
+
+/-- what `atoms_df` is handed as `scale`: a flag, one property name, a list of names. -/
+inductive DfScale where
+  | flag (f : Flag)
+  | key (k : String)
+  | keys (l : List String)
+deriving Repr, DecidableEq
+
+def DfScale.isList : DfScale → Bool
+  | .keys _ => true
+  | _ => false
+
+/-- `[scale]` as a list of names a property key can equal (a flag that is neither `True` nor `False` equals no key). -/
+def DfScale.single : DfScale → List String
+  | .key k => [k]
+  | _ => []
+
+def DfScale.toKeys : DfScale → List String
+  | .keys l => l
+  | _ => []
+
+/-- `atoms_df`: `True` → `['pos']`, `False` → `[]`, anything that is not a list → `[scale]`. -/
+def dfScaleKeys (scale : DfScale) : List String :=
+  match scale with
+  | .flag (.bool true) => ["pos"]
+  | .flag (.bool false) => []
+  | .keys l => l
+  | sc => sc.single
+
+/-- `System.atoms_df(scale)`: the named properties are converted to box-relative values first (a property that cannot
+    be converted raises, in key order). -/
+def sysDfColumns (s : State) (i : Nat) (scale : List String) : Except Err (List Column) :=
+  let y := s.sys i
+  ((s.obj y.atoms).props.mapM (fun p =>
+    if scale.contains p.key then (cartToRelVal y.box (arrVal s p.arr)).map (valColumns p.key)
+    else .ok (valColumns p.key (arrVal s p.arr)))).map List.flatten
+
 /-! ## operations and the step function -/
 
 inductive Op where
@@ -944,6 +1026,8 @@ inductive Op where
   | sysExtend (i : Nat) (value : Int ⊕ Nat) (scale : Bool) (symbols : Option (List (Option String)))
   | ixGet (i : Nat) (ix : Index)
   | ixSet (i : Nat) (ix : Index) (src : Nat ⊕ Nat)      -- Atoms id ⊕ System id
+  | df (o : Nat)
+  | sysDf (i : Nat) (scale : DfScale)
 
 inductive Out where
   | unit
@@ -956,6 +1040,7 @@ inductive Out where
   | masses (l : List (Option Rat))
   | nats (l : List Nat)
   | comp (c : Option String)
+  | table (cols : List Column)
 deriving Repr, BEq, DecidableEq
 
 /-- literals of an operation are well-formed (checked by the driver's parser as well). -/
@@ -971,14 +1056,14 @@ def Op.litsOk : Op → Bool
 def Op.idsOk (s : State) : Op → Bool
   | .new .. => true
   | .setView o .. | .propGet o .. | .propKeys o | .propGetAtoms o .. | .propSet o ..
-  | .getItem o .. | .propAtype o .. | .extendInt o .. | .deepcopy o | .natypes o
+  | .getItem o .. | .propAtype o .. | .extendInt o .. | .deepcopy o | .natypes o | .df o
   | .mkSys o .. | .mkSysX o .. => decide (o < s.objs.length)
   | .propSetAtoms o _ src | .setItem o _ src | .extendAtoms o src =>
     decide (o < s.objs.length) && decide (src < s.objs.length)
   | .symbolsGet i | .symbolsSet i _ | .massesGet i | .massesSet i _ | .pbcSet i _ | .sysNatypes i
   | .sysAtypes i | .composition i
   | .sysPropGet i .. | .sysPropGetAtoms i .. | .sysPropSet i .. | .ixGet i ..
-  | .sysPropGetScaled i .. | .sysPropGetAtomsScaled i .. | .sysDeepcopy i =>
+  | .sysPropGetScaled i .. | .sysPropGetAtomsScaled i .. | .sysDeepcopy i | .sysDf i .. =>
     decide (i < s.syss.length)
   | .sysPropSetAtoms i _ src _ => decide (i < s.syss.length) && decide (src < s.objs.length)
   | .sysExtend i v _ _ => decide (i < s.syss.length) && (match v with
@@ -1037,6 +1122,8 @@ def run (offsetDonor : Bool) : Op → M Out
       | .inl o => setItem (s.sys i).atoms ix o
       | .inr j => setItem (s.sys i).atoms ix (s.sys j).atoms : M Unit)
     pure .unit
+  | .df o => do let s ← getS; pure (.table (dfColumns s o))
+  | .sysDf i sc => do let s ← getS; let c ← liftE (sysDfColumns s i (dfScaleKeys sc)); pure (.table c)
 
 /-! ## the decisions of the source as functions
 
@@ -1121,21 +1208,6 @@ deriving Repr, DecidableEq
 def CallVal.isAtoms : CallVal → Bool
   | .atoms _ => true
   | .lit _ => false
-
-/-- how a flag documented as `bool` is spelled: a Python `bool`, or something else with a truth value
-    (`1`, `0`, `numpy.True_`, `1.0` …): `isinstance(scale, bool)`, `scale is True` and `if scale:` tell them apart. -/
-inductive Flag where
-  | bool (b : Bool)
-  | other (truthy : Bool)
-deriving Repr, DecidableEq
-
-def Flag.isBool : Flag → Bool
-  | .bool _ => true
-  | .other _ => false
-
-def Flag.truthy : Flag → Bool
-  | .bool b => b
-  | .other t => t
 
 /-- what a call of `Atoms.prop(key, index, value, a_id)` does. -/
 inductive PropAction where
